@@ -16,7 +16,7 @@ TEXTS = {
          'special functions are uninterpreted atoms with textbook derivative rules; one known finding (integer-typed coefficient arrays) listed in known_findings.txt', '4 C01'),
  'C02': ('every operator x operand kind (UTPM, ndarray, python/numpy scalars of 8 kinds, 0-d arrays) x position x broadcast shape pair in the bound is executed on symbolic operands; sums/differences/Cauchy products and the '
          'quotient\'s defining equation z*y=x are proved for all real/complex values; reflected and in-place forms (incl. right operands overlapping the left one) proved equal to the binary expression; logical result dtype and imaginary parts checked',
-         FLOATS + 'D<=3 quick / <=6 (P<=3), 10 (P=2), 14 (P=1) thorough plus D=17 units; operands scaled by 2^+-600 validated in exact rational arithmetic; complex scalar exponents are float-decided only', '4 C02'),
+         FLOATS + 'D<=3 quick / <=6 (P<=3), 10 (P=2), 14 (P=1) thorough plus D=17 units; operands scaled by 2^+-600 validated in exact rational arithmetic; arrays of exponents (broadcast shape for every P, whole-number entries with any base) symbolic; complex scalar exponents and exponents 2**31-1 (must return within 60 s) are float-decided only', '4 C02'),
  'C03': ('each program of the catalogue (~300: arithmetic with constants either side, elementary/special functions, basic and advanced indexing, buffers and views, paused recording, reshape/transpose/tile, reductions, dot/outer ranks, '
          'inv/solve/det/logdet/cholesky/lu, qr/qr_full/cholesky/eigh/eig/svd on factor-built inputs, fft/ifft) and seeded random compositions is recorded by the real tracer; the reverse sweep runs with a symbolic adjoint seed and the adjoint identity '
          '<xbar,v> = <ybar,F\'(x)v> mod t^D is proved at every order for a symbolic direction v, with F\'(x)v from symbolic differentiation of the forward DAG; two routes (record elsewhere + re-evaluate, sweep right after recording), '
@@ -27,7 +27,7 @@ TEXTS = {
          FLOATS + 'programs R^3->R^M: fixed lists, every 1-D buffer/indexing program of the catalogue, random compositions; recording kinds ndarray / UTPM(1,1) / UTPM(2,2)', '4 C04'),
  'C05': ('values seen through tracer nodes while recording and every replay (new independent symbolic inputs of any kind/degree, sequences of up to 3 replays, incl. factorisation programs on factor-built points) are proved equal to the direct '
          'evaluation of the program; results and inputs of earlier replays are re-checked after the later ones; structural clause asserted on each recorded graph',
-         FLOATS + 'programs enumerated (catalogue + 8 / 900 random); structural clause is a per-run assertion, not a solver query', '4 C05'),
+         FLOATS + 'programs enumerated (catalogue + 8 / 900 random); structural clause is a per-run assertion, not a solver query; plain-array accumulators handed out as results and all 16 record/replay combinations of scalar kinds (python float, numpy.float64, 0-d array, 0-d polynomial) are float-decided', '4 C05'),
  'C06': ('for each program and history (all sequences of length <=2 (3) over forward/reverse/driver/second-graph/re-used-argument-object calls + sampled longer ones) every call on the long-lived graph is proved equal to the same call on a fresh graph; '
          'forward values of all nodes are proved unchanged by a reverse sweep; earlier results must still be intact at the end; every catalogue program through one forward evaluation + two sweeps',
          FLOATS + 'histories enumerated up to length 2 (3 thorough) + seeded samples up to 5', '4 C06'),
@@ -46,10 +46,10 @@ TEXTS = {
          'branches agree between ndarray/UTPM/Function; algopy.<f> on plain symbolic arrays == numpy/scipy.<f>',
          FLOATS + 'operation catalogue symx/ops.py; LAPACK-backed zeroth coefficients compared with exact inverse/Cramer (stub on both sides)', '4 C10'),
  'C13': ('operand elements are distinct symbols: getitem for 300 (quick) / 6000 (thorough) index expressions from a grammar (ints, numpy ints, negative ints, slices with +-steps, Ellipsis, newaxis, tuples) on 6 / 10 shapes, write-through-view, setitem with UTPM/broadcast UTPM/ndarray/scalar/own-view right-hand sides, reshape, transpose, sum(axis), tile, diag(k), tril/triu(k), trace, neg, conjugate/real/imag (complex), zeros/ones(-like), fft/ifft (n in {2,4}, any axis) proved slice-wise equal to NumPy; shares_memory compared with NumPy',
-         'index expressions/shapes enumerated (seeded); empty selections excluded from setitem; fft via exact DFT matrix stub for n | 4', '4 C13'),
+         'index expressions/shapes enumerated (seeded), incl. index arrays separated by slices / Ellipsis, right-hand sides NumPy rejects (must raise for every P), sum axes out of range and tuples of axes; empty selections excluded from setitem; fft via exact DFT matrix stub for n | 4', '4 C13'),
  'C14': ('every catalogued operation leaves its arguments term-for-term unchanged (C- and Fortran-ordered matrices) and returns results that share no memory with them; x op x, x op= x, x op= view-of-x (x[::-1], x.T, x[0], x[0:1], x.data[0,0]), two views of one parent, x.shift(s, out=x) proved equal to the same operation with an independent copy for all coefficient values (+,-,*,/, **, dot, outer, //); '
          'recording, re-evaluation and reverse sweeps leave user inputs and seeds unchanged',
-         FLOATS + 'catalogue symx/ops.py; D<=3 quick / 6, 9 thorough, P<=5', '4 C14'),
+         FLOATS + 'catalogue symx/ops.py; D<=3 quick / 6, 9 thorough, P<=5; the reverse rule of every catalogued operation run on the caller\'s own seed object; constants of the caller (wrapped arrays, polynomial operands, read-only arrays) untouched by re-evaluation and sweeps', '4 C14'),
  'C11': ('each catalogued operation is run on P directions with independent symbols (incl. independent base points) and on each direction alone; equality of all coefficients is decided for all values; term support shows no symbol of another direction occurs; '
          'reverse sweeps, eigh/eigh1 with a repeated eigenvalue, qr with a rank-deficient base point and // with a 0/0 in one direction only',
          FLOATS + 'operation catalogue in symx/ops.py, D3,P2 quick / D5,P3 + D8,P2 + D3,P5 thorough', '4 C11'),
